@@ -1,10 +1,584 @@
 /-
-  Model module `Num` (driver op `num`). Import-free apart from RsjModel.* modules.
+  Model module `Num` (driver op `num`), property C06.
+
+  Every place of the evaluator that creates a number value (`ValueData::Number(..)`) is a
+  *producer*: a function into `Except Err F` over an abstract float algebra `FloatAlg F`
+  that applies the operation and then the gate `check_number_value` exactly where the
+  Rust code does (rsjsonnet-lang/src/program/eval/{expr,mod,stdlib}.rs) — and does *not*
+  apply it where the Rust code does not (unary minus, floor, ceil, mantissa, integer
+  conversions, the final division of `std.avg`): those rely on the laws `Lawful`.
+
+  The driver instantiates `F := Float` (IEEE binary64 of the Lean runtime) for the
+  exactly rounded operations and the libm functions; `%`, `frexp`, integer conversions
+  and decimal parsing are computed exactly over `Nat` on the bit patterns.
 -/
 import RsjModel.Util
+import RsjModel.Dec
 namespace Rsj.Num
 
-/-- `num <args...>` : one canonical answer line, or `none` for a malformed request. -/
-def handle (_args : List String) : Option String := none
+/-! ### abstract float algebra -/
+
+structure FloatAlg (F : Type) where
+  add : F → F → F
+  sub : F → F → F
+  mul : F → F → F
+  div : F → F → F
+  /-- Rust `%` on f64 (C `fmod`) -/
+  rem : F → F → F
+  neg : F → F
+  floor : F → F
+  ceil : F → F
+  sqrt : F → F
+  exp : F → F
+  log : F → F
+  log2 : F → F
+  log10 : F → F
+  sin : F → F
+  cos : F → F
+  tan : F → F
+  asin : F → F
+  acos : F → F
+  atan : F → F
+  pow : F → F → F
+  atan2 : F → F → F
+  hypot : F → F → F
+  toRadians : F → F
+  toDegrees : F → F
+  /-- first component of `float::frexp` -/
+  mantissa : F → F
+  /-- second component of `float::frexp` (an `i16`) -/
+  exponent : F → Int
+  /-- `i as f64` for an integer type (round to nearest even) -/
+  ofInt : Int → F
+  /-- `str::parse::<f64>` of the decimal `(-1)^neg · n · 10^e` -/
+  ofDec : Bool → Nat → Int → F
+  /-- `x as i64` (truncating, saturating, NaN ↦ 0) -/
+  toInt : F → Int
+  lt : F → F → Bool
+  eqZero : F → Bool
+  /-- `is_sign_negative` -/
+  signNeg : F → Bool
+  isNaN : F → Bool
+  isInf : F → Bool
+  pi : F
+
+/-- `FpCategory` is one of Zero/Subnormal/Normal: neither NaN nor infinite.
+    (`classify` is exhaustive by construction: a value is NaN, infinite, or `Finite`.) -/
+def Finite {F : Type} (alg : FloatAlg F) (x : F) : Prop :=
+  alg.isNaN x = false ∧ alg.isInf x = false
+
+/-- The laws of binary64 arithmetic that the ungated producers rely on. -/
+structure Lawful {F : Type} (alg : FloatAlg F) : Prop where
+  neg_finite : ∀ x, Finite alg x → Finite alg (alg.neg x)
+  floor_finite : ∀ x, Finite alg x → Finite alg (alg.floor x)
+  ceil_finite : ∀ x, Finite alg x → Finite alg (alg.ceil x)
+  mantissa_finite : ∀ x, Finite alg x → Finite alg (alg.mantissa x)
+  /-- the exponent of `frexp` is an `i16` -/
+  exponent_i16 : ∀ x, -32768 ≤ alg.exponent x ∧ alg.exponent x ≤ 32767
+  /-- every integer of a 64-bit type converts to a finite double -/
+  ofInt_finite : ∀ i : Int, -(2 ^ 64) ≤ i → i ≤ 2 ^ 64 → Finite alg (alg.ofInt i)
+  /-- dividing a finite value by an array length ≥ 1 stays finite (`std.avg`) -/
+  div_count_finite : ∀ x (n : Nat), Finite alg x → 1 ≤ n → n ≤ 2 ^ 64 →
+    Finite alg (alg.div x (alg.ofInt n))
+  pi_finite : Finite alg alg.pi
+
+inductive Err where
+  | numberNan | numberOverflow | divByZero | notBitwiseSafe | shiftByNegative
+  | emptyAvg          -- "cannot calculate average of empty array"
+  | badText           -- parse builtins: invalid text
+  | arity             -- wrong number of arguments for the producer (driver misuse)
+  | outOfType         -- an integer parameter outside every 64-bit integer type (driver misuse)
+deriving Repr, DecidableEq
+
+/-- `check_number_value` -/
+def gate {F : Type} (alg : FloatAlg F) (x : F) : Except Err F :=
+  if alg.isNaN x then .error .numberNan
+  else if alg.isInf x then .error .numberOverflow
+  else .ok x
+
+/-- `if !number.is_finite() { return Err(NumberOverflow) }` -/
+def finiteCheck {F : Type} (alg : FloatAlg F) (x : F) : Except Err F :=
+  if !alg.isNaN x && !alg.isInf x then .ok x else .error .numberOverflow
+
+/-! ### 64-bit integer helpers (two's complement) -/
+
+def TWO63 : Int := 2 ^ 63
+def TWO64 : Int := 2 ^ 64
+
+/-- wrap into the `i64` range -/
+def wrapI64 (x : Int) : Int := (x + TWO63) % TWO64 - TWO63
+
+/-- two's complement image in `[0, 2^64)` -/
+def toU64 (x : Int) : Nat := (x % TWO64).toNat
+
+/-- back from the unsigned image -/
+def fromU64 (n : Nat) : Int := wrapI64 (n : Int)
+
+/-- `safe_f64_to_i64` -/
+def safeToI64 {F : Type} (alg : FloatAlg F) (x : F) : Except Err Int :=
+  let max := alg.ofInt (2 ^ 53 - 1)
+  let min := alg.neg max
+  if alg.lt x min || alg.lt max x then .error .notBitwiseSafe
+  else .ok (alg.toInt x)
+
+/-! ### producers -/
+
+inductive Producer where
+  -- binary operators (expr.rs `do_binary_op`)
+  | add | sub | mul | div | rem | shl | shr | band | bor | bxor
+  -- unary operators (mod.rs `State::UnaryOp`)
+  | neg | pos | bnot
+  -- native builtins (stdlib.rs)
+  | modulo | mod | pow | atan2 | hypot
+  | exp | log | log2 | log10 | sqrt | sin | cos | tan | asin | acos | atan
+  | deg2rad | rad2deg | floor | ceil | mantissa | exponent
+  | sum | avg
+  -- builtins written in Jsonnet (std.libsonnet)
+  | abs | sign | max | min | clamp | round
+  -- parameterised sites
+  | intConv (i : Int)                       -- `u8/u32/i8/i16/i32/usize as f64`
+  | literal (n : Nat) (e : Int)             -- `ir::Expr::Number` (analyzer parse + gate)
+  | parseDec (neg : Bool) (n : Nat) (e : Int)  -- parseInt / parseJson / parseYaml decimal
+  | parseRadix (radix : Nat) (text : List Char)  -- parseOctal / parseHex / YAML 0o 0x
+  | pi
+deriving Repr
+
+def sumLoop {F : Type} (alg : FloatAlg F) : F → List F → Except Err F
+  | acc, [] => .ok acc
+  | acc, x :: xs =>
+    match gate alg (alg.add acc x) with
+    | .error e => .error e
+    | .ok s => sumLoop alg s xs
+
+/-- `char::to_digit(radix)` for radix 8 / 16 -/
+def toDigit (radix : Nat) (c : Char) : Option Nat :=
+  let n := c.toNat
+  let v : Option Nat :=
+    if 48 ≤ n ∧ n ≤ 57 then some (n - 48)
+    else if 97 ≤ n ∧ n ≤ 122 then some (n - 87)
+    else if 65 ≤ n ∧ n ≤ 90 then some (n - 55)
+    else none
+  match v with
+  | some d => if d < radix then some d else none
+  | none => none
+
+def dropZeros : List Char → List Char
+  | '0' :: cs => dropZeros cs
+  | cs => cs
+
+/-- the first loop of `parse_num_radix`: `number = number * RADIX + digit` in u128 -/
+def radixHead (radix : Nat) : List Char → Nat → Option Nat
+  | [], acc => some acc
+  | c :: cs, acc =>
+    match toDigit radix c with
+    | none => none
+    | some d => radixHead radix cs (acc * radix + d)
+
+/-- the second loop: validity, sticky bit and count of the digits beyond 128 bits -/
+def radixTail (radix : Nat) : List Char → Bool → Option Bool
+  | [], st => some st
+  | c :: cs, st =>
+    match toDigit radix c with
+    | none => none
+    | some d => radixTail radix cs (st || d != 0)
+
+def mulTimes {F : Type} (alg : FloatAlg F) (r : F) : Nat → F → F
+  | 0, x => x
+  | k + 1, x => mulTimes alg r k (alg.mul x r)
+
+/-- `parse_num_radix::<RADIX>` -/
+def parseNumRadix {F : Type} (alg : FloatAlg F) (radix : Nat) (s : List Char) : Except Err F :=
+  if s.isEmpty then .error .badText
+  else
+    let s := dropZeros s
+    let maxDigits := if radix = 8 then 128 / 3 else 128 / 4
+    let head := s.take maxDigits
+    let tail := s.drop maxDigits
+    match radixHead radix head 0 with
+    | none => .error .badText
+    | some number =>
+      match radixTail radix tail false with
+      | none => .error .badText
+      | some sticky =>
+        let number := if sticky then number ||| 1 else number
+        let x := mulTimes alg (alg.ofInt radix) tail.length (alg.ofInt number)
+        finiteCheck alg x
+
+def run {F : Type} (alg : FloatAlg F) (p : Producer) (args : List F) : Except Err F :=
+  match p, args with
+  | .add, [l, r] => gate alg (alg.add l r)
+  | .sub, [l, r] => gate alg (alg.sub l r)
+  | .mul, [l, r] => gate alg (alg.mul l r)
+  | .div, [l, r] => if alg.eqZero r then .error .divByZero else gate alg (alg.div l r)
+  | .rem, [l, r] => if alg.eqZero r then .error .divByZero else gate alg (alg.rem l r)
+  | .modulo, [l, r] => if alg.eqZero r then .error .divByZero else gate alg (alg.rem l r)
+  | .mod, [l, r] => if alg.eqZero r then .error .divByZero else gate alg (alg.rem l r)
+  | .shl, [l, r] =>
+    match safeToI64 alg l with
+    | .error e => .error e
+    | .ok li =>
+      if alg.signNeg r then .error .shiftByNegative
+      else
+        match safeToI64 alg r with
+        | .error e => .error e
+        | .ok ri =>
+          let sh := (ri % 64).toNat                    -- `rhs & 63`
+          let res := wrapI64 (li * 2 ^ sh)             -- `lhs << shift` (wrapping)
+          if wrapI64 (res / 2 ^ sh) ≠ li then .error .notBitwiseSafe   -- `r >> shift != lhs`
+          else .ok (alg.ofInt res)
+  | .shr, [l, r] =>
+    match safeToI64 alg l with
+    | .error e => .error e
+    | .ok li =>
+      if alg.signNeg r then .error .shiftByNegative
+      else
+        match safeToI64 alg r with
+        | .error e => .error e
+        | .ok ri => .ok (alg.ofInt (wrapI64 (li / 2 ^ (ri % 64).toNat)))
+  | .band, [l, r] =>
+    match safeToI64 alg l, safeToI64 alg r with
+    | .ok li, .ok ri => .ok (alg.ofInt (fromU64 (toU64 li &&& toU64 ri)))
+    | .error e, _ => .error e
+    | _, .error e => .error e
+  | .bor, [l, r] =>
+    match safeToI64 alg l, safeToI64 alg r with
+    | .ok li, .ok ri => .ok (alg.ofInt (fromU64 (toU64 li ||| toU64 ri)))
+    | .error e, _ => .error e
+    | _, .error e => .error e
+  | .bxor, [l, r] =>
+    match safeToI64 alg l, safeToI64 alg r with
+    | .ok li, .ok ri => .ok (alg.ofInt (fromU64 (toU64 li ^^^ toU64 ri)))
+    | .error e, _ => .error e
+    | _, .error e => .error e
+  | .neg, [x] => .ok (alg.neg x)
+  | .pos, [x] => .ok x
+  | .bnot, [x] =>
+    match safeToI64 alg x with
+    | .error e => .error e
+    | .ok i => .ok (alg.ofInt (wrapI64 (-i - 1)))
+  | .pow, [l, r] => gate alg (alg.pow l r)
+  | .atan2, [l, r] => gate alg (alg.atan2 l r)
+  | .hypot, [l, r] => gate alg (alg.hypot l r)
+  | .exp, [x] => gate alg (alg.exp x)
+  | .log, [x] => gate alg (alg.log x)
+  | .log2, [x] => gate alg (alg.log2 x)
+  | .log10, [x] => gate alg (alg.log10 x)
+  | .sqrt, [x] => gate alg (alg.sqrt x)
+  | .sin, [x] => gate alg (alg.sin x)
+  | .cos, [x] => gate alg (alg.cos x)
+  | .tan, [x] => gate alg (alg.tan x)
+  | .asin, [x] => gate alg (alg.asin x)
+  | .acos, [x] => gate alg (alg.acos x)
+  | .atan, [x] => gate alg (alg.atan x)
+  | .deg2rad, [x] => gate alg (alg.toRadians x)
+  | .rad2deg, [x] => gate alg (alg.toDegrees x)
+  | .floor, [x] => .ok (alg.floor x)
+  | .ceil, [x] => .ok (alg.ceil x)
+  | .mantissa, [x] => .ok (alg.mantissa x)
+  | .exponent, [x] => .ok (alg.ofInt (alg.exponent x))
+  | .sum, xs => sumLoop alg (alg.ofInt 0) xs
+  | .avg, xs =>
+    match xs with
+    | [] => .error .emptyAvg
+    | _ :: _ =>
+      match sumLoop alg (alg.ofInt 0) xs with
+      | .error e => .error e
+      | .ok s => if xs.length ≤ 2 ^ 64 then .ok (alg.div s (alg.ofInt xs.length)) else .error .outOfType
+  -- std.libsonnet
+  | .abs, [n] => if alg.lt (alg.ofInt 0) n then .ok n else .ok (alg.neg n)
+  | .sign, [n] =>
+    if alg.lt (alg.ofInt 0) n then .ok (alg.ofInt 1)
+    else if alg.lt n (alg.ofInt 0) then .ok (alg.neg (alg.ofInt 1))
+    else .ok (alg.ofInt 0)
+  | .max, [a, b] => if alg.lt b a then .ok a else .ok b
+  | .min, [a, b] => if alg.lt a b then .ok a else .ok b
+  | .clamp, [x, lo, hi] => if alg.lt x lo then .ok lo else if alg.lt hi x then .ok hi else .ok x
+  | .round, [x] =>
+    match gate alg (alg.add x (alg.ofDec false 5 (-1))) with
+    | .error e => .error e
+    | .ok y => .ok (alg.floor y)
+  | .intConv i, [] =>
+    if -(2 ^ 64) ≤ i ∧ i ≤ 2 ^ 64 then .ok (alg.ofInt i) else .error .outOfType
+  | .literal n e, [] => gate alg (alg.ofDec false n e)
+  | .parseDec neg n e, [] => finiteCheck alg (alg.ofDec neg n e)
+  | .parseRadix radix text, [] => parseNumRadix alg radix text
+  | .pi, [] => .ok alg.pi
+  | _, _ => .error .arity
+
+/-- Names of the parameterless producers (used by the site map, `NumberSites.lean`). -/
+def producerNames : List String :=
+  ["add", "sub", "mul", "div", "rem", "shl", "shr", "band", "bor", "bxor", "neg", "pos", "bnot",
+   "modulo", "mod", "pow", "atan2", "hypot", "exp", "log", "log2", "log10", "sqrt", "sin", "cos",
+   "tan", "asin", "acos", "atan", "deg2rad", "rad2deg", "floor", "ceil", "mantissa", "exponent",
+   "sum", "avg", "abs", "sign", "max", "min", "clamp", "round",
+   "intConv", "literal", "parseDec", "parseRadix", "pi"]
+
+/-- Justified classes of `tools/number_sites.toml` that are not producer names. -/
+def siteClasses : List String := ["integer-conversion", "constant", "host-supplied"]
+
+/-- Producers whose construction site itself must be preceded by the gate in the source
+    (`check_number_value(<expr>, ..)` or an `is_finite` test on the constructed expression). -/
+def siteGated : List String :=
+  ["add", "sub", "mul", "div", "rem", "modulo", "mod", "pow", "atan2", "hypot", "exp", "log",
+   "log2", "log10", "sqrt", "sin", "cos", "tan", "asin", "acos", "atan", "deg2rad", "rad2deg",
+   "sum", "literal"]
+
+def producerOfName (s : String) : Option Producer :=
+  match s with
+  | "add" => some .add | "sub" => some .sub | "mul" => some .mul | "div" => some .div
+  | "rem" => some .rem | "shl" => some .shl | "shr" => some .shr | "band" => some .band
+  | "bor" => some .bor | "bxor" => some .bxor | "neg" => some .neg | "pos" => some .pos
+  | "bnot" => some .bnot | "modulo" => some .modulo | "mod" => some .mod | "pow" => some .pow
+  | "atan2" => some .atan2 | "hypot" => some .hypot | "exp" => some .exp | "log" => some .log
+  | "log2" => some .log2 | "log10" => some .log10 | "sqrt" => some .sqrt | "sin" => some .sin
+  | "cos" => some .cos | "tan" => some .tan | "asin" => some .asin | "acos" => some .acos
+  | "atan" => some .atan | "deg2rad" => some .deg2rad | "rad2deg" => some .rad2deg
+  | "floor" => some .floor | "ceil" => some .ceil | "mantissa" => some .mantissa
+  | "exponent" => some .exponent | "sum" => some .sum | "avg" => some .avg
+  | "abs" => some .abs | "sign" => some .sign | "max" => some .max | "min" => some .min
+  | "clamp" => some .clamp | "round" => some .round | "pi" => some .pi
+  | _ => none
+
+/-! ### the binary64 instance (driver only; no theorem depends on it) -/
+
+open Rsj.Dec
+
+def bitsOf (x : Float) : Nat := x.toBits.toNat
+def ofBitsNat (b : Nat) : Float := Float.ofBits (UInt64.ofNat b)
+
+/-- Exact `fmod` on bit patterns. -/
+def fmodBits (x y : Nat) : Nat :=
+  let sx := x / SIGN_BIT
+  let ax := x % SIGN_BIT
+  let ay := y % SIGN_BIT
+  if ax > INF_BITS ∨ ay > INF_BITS then NAN_BITS
+  else if ax = INF_BITS ∨ ay = 0 then NAN_BITS
+  else if ay = INF_BITS then x
+  else
+    let (mx, ex) := decodeMag ax
+    let (my, ey) := decodeMag ay
+    let e := min ex ey
+    let r := (mx * 2 ^ (ex - e)) % (my * 2 ^ (ey - e))
+    sx * SIGN_BIT + roundNE (r * 2 ^ e) (2 ^ 1074)
+
+/-- `x as i64` on bit patterns. -/
+def toIntBits (x : Nat) : Int :=
+  let neg := x / SIGN_BIT = 1
+  let ax := x % SIGN_BIT
+  if ax > INF_BITS then 0
+  else
+    let mag : Nat :=
+      if ax = INF_BITS then 2 ^ 64
+      else
+        let (m, sh) := decodeMag ax
+        if sh ≥ 1074 then m * 2 ^ (sh - 1074) else m / 2 ^ (1074 - sh)
+    if neg then (if mag ≥ 2 ^ 63 then -(2 ^ 63) else -(mag : Int))
+    else (if mag ≥ 2 ^ 63 then 2 ^ 63 - 1 else (mag : Int))
+
+def ofIntBits (i : Int) : Nat :=
+  (if i < 0 then SIGN_BIT else 0) + roundNE i.natAbs 1
+
+def ofDecBits (neg : Bool) (n : Nat) (e : Int) : Nat :=
+  (if neg then SIGN_BIT else 0) + roundDec n e
+
+/-- `float::frexp` on bit patterns: mirrors the Rust code line by line. -/
+def frexpBits (x : Nat) : Nat × Int :=
+  let ax := x % SIGN_BIT
+  let isSub := ax / 2 ^ 52 = 0 ∧ ax ≠ 0
+  -- `x * 2^52` is exact for a subnormal x
+  let (norm, edelta) : Nat × Int :=
+    if isSub then
+      ((x / SIGN_BIT) * SIGN_BIT + roundNE ((ax % 2 ^ 52) * 2 ^ 52) (2 ^ 1074), -52)
+    else (x, 0)
+  let rawExp : Nat := norm / 2 ^ 52 % 2048
+  if rawExp = 0 then ((norm / SIGN_BIT) * SIGN_BIT, 0)
+  else
+    let mant := (norm / SIGN_BIT) * SIGN_BIT + 0x3FE * 2 ^ 52 + norm % 2 ^ 52
+    (mant, (rawExp : Int) - 0x3FE + edelta)
+
+/-- Does `hypot` of two finite magnitudes overflow (correctly rounded)? -/
+def hypotOverflows (ax ay : Nat) : Bool :=
+  let (mx, ex) := decodeMag ax
+  let (my, ey) := decodeMag ay
+  let v := mx * mx * 2 ^ (2 * ex) + my * my * 2 ^ (2 * ey)
+  let t := 2 ^ 2098 - 2 ^ 2044
+  decide (v ≥ t * t)
+
+def MAX_BITS : Nat := 0x7FEFFFFFFFFFFFFF
+
+def hypotFloat (x y : Float) : Float :=
+  let bx := bitsOf x % SIGN_BIT
+  let b_y := bitsOf y % SIGN_BIT
+  if bx = INF_BITS ∨ b_y = INF_BITS then ofBitsNat INF_BITS
+  else if bx > INF_BITS ∨ b_y > INF_BITS then ofBitsNat NAN_BITS
+  else if hypotOverflows bx b_y then ofBitsNat INF_BITS
+  else
+    let a := x.abs
+    let b := y.abs
+    let m := if a < b then b else a
+    let n := if a < b then a else b
+    if m == 0 then m
+    else
+      let q := n / m
+      let r := m * Float.sqrt (1 + q * q)
+      if r.isInf then ofBitsNat MAX_BITS else r
+
+def floatAlg : FloatAlg Float where
+  add := (· + ·)
+  sub := (· - ·)
+  mul := (· * ·)
+  div := (· / ·)
+  rem := fun x y => ofBitsNat (fmodBits (bitsOf x) (bitsOf y))
+  neg := fun x => ofBitsNat ((bitsOf x + SIGN_BIT) % 2 ^ 64)
+  floor := Float.floor
+  ceil := Float.ceil
+  sqrt := Float.sqrt
+  exp := Float.exp
+  log := Float.log
+  log2 := Float.log2
+  log10 := Float.log10
+  sin := Float.sin
+  cos := Float.cos
+  tan := Float.tan
+  asin := Float.asin
+  acos := Float.acos
+  atan := Float.atan
+  pow := Float.pow
+  atan2 := Float.atan2
+  hypot := hypotFloat
+  -- `const RADS_PER_DEG: f64 = consts::PI / 180.0; self * RADS_PER_DEG`
+  toRadians := fun x => x * (ofBitsNat 0x400921FB54442D18 / 180.0)
+  -- `self * (180.0f64 / consts::PI)`
+  toDegrees := fun x => x * (180.0 / ofBitsNat 0x400921FB54442D18)
+  mantissa := fun x => ofBitsNat (frexpBits (bitsOf x)).1
+  exponent := fun x => (frexpBits (bitsOf x)).2
+  ofInt := fun i => ofBitsNat (ofIntBits i)
+  ofDec := fun neg n e => ofBitsNat (ofDecBits neg n e)
+  toInt := fun x => toIntBits (bitsOf x)
+  lt := fun x y => x < y
+  eqZero := fun x => x == 0
+  signNeg := fun x => bitsOf x / SIGN_BIT = 1
+  isNaN := Float.isNaN
+  isInf := Float.isInf
+  pi := ofBitsNat 0x400921FB54442D18
+
+/-! ### driver -/
+
+def hex16 (n : Nat) : String :=
+  String.ofList ((List.range 16).reverse.map (fun i => hexDigit (n / 16 ^ i % 16)))
+
+def parseHexNat (s : String) : Option Nat :=
+  s.toList.foldl (fun acc c => match acc, hexVal c with
+    | some a, some d => some (a * 16 + d)
+    | _, _ => none) (some 0)
+
+def parseBits (s : String) : Option Float :=
+  if s.length = 16 then (parseHexNat s).map ofBitsNat else none
+
+def showErr : Err → String
+  | .numberNan => "NumberNan" | .numberOverflow => "NumberOverflow" | .divByZero => "DivByZero"
+  | .notBitwiseSafe => "NumberNotBitwiseSafe" | .shiftByNegative => "ShiftByNegative"
+  | .emptyAvg => "Other" | .badText => "Other" | .arity => "arity" | .outOfType => "outOfType"
+
+def showRes : Except Err Float → String
+  | .ok x => "ok " ++ hex16 (bitsOf x)
+  | .error e => "err " ++ showErr e
+
+def showLexErr : LexErr → String
+  | .notADigit => "NotADigit" | .leadingZero => "LeadingZeroInNumber"
+  | .missingDigitAfterUnderscore => "MissingDigitAfterUnderscore"
+  | .missingFracDigits => "MissingFracDigits" | .missingExpDigits => "MissingExpDigits"
+  | .expOverflow => "ExpOverflow"
+
+def charsOfHex (s : String) : Option (List Char) :=
+  (hexDecode s).map (fun bs => bs.map Char.ofNat)
+
+def hexOfChars (cs : List Char) : String := hexEnc (cs.map Char.toNat)
+
+def digitsString (ds : List Nat) : String := String.ofList (ds.map digitChar)
+
+/-- value of a text in `sciValue` grammar after `is_finite` check -/
+def decText (t : List Char) : Option (Except Err Float) :=
+  match sciValue t with
+  | none => none
+  | some (neg, n, e) => some (run floatAlg (.parseDec neg n e) [])
+
+/-- `num <sub> ...` -/
+def handle (args : List String) : Option String :=
+  match args with
+  | "op" :: name :: rest => do
+    let p ← producerOfName name
+    let xs ← rest.mapM parseBits
+    pure (showRes (run floatAlg p xs))
+  | ["conv", i] => do
+    let i ← i.toInt?
+    pure (showRes (run floatAlg (.intConv i) []))
+  | ["lex", t] => do
+    let cs ← charsOfHex t
+    match lexNumber cs with
+    | .error e => pure ("err " ++ showLexErr e)
+    | .ok (ds, e, rest) => pure s!"ok {digitsString ds} {e} {hexOfChars rest}"
+  | ["lit", t] => do
+    let cs ← charsOfHex t
+    match lexNumber cs with
+    | .error e => pure ("err lex " ++ showLexErr e)
+    | .ok (ds, e, rest) =>
+      if !rest.isEmpty then pure "err rest"
+      else
+        -- the analyzer parses the re-assembled text
+        match sciValue (reassemble ds e) with
+        | some (false, n, e') => pure (showRes (run floatAlg (.literal n e') []))
+        | _ => pure "err reassemble"
+  | ["litvalue", t] => do
+    -- specification side: value of the literal text, no state machine
+    let cs ← charsOfHex t
+    let (n, e) := literalValue cs
+    pure (showRes (run floatAlg (.literal n e) []))
+  | ["dec", t] => do
+    let cs ← charsOfHex t
+    match decText cs with
+    | none => pure "err Other"
+    | some r => pure (showRes r)
+  | ["parseint", t] => do
+    let cs ← charsOfHex t
+    let body := match cs with | '-' :: r => r | r => r
+    if body.isEmpty || !allDigits body then pure "err Other"
+    else match decText cs with
+      | none => pure "err Other"
+      | some r => pure (showRes r)
+  | ["radix", r, t] => do
+    let r ← r.toNat?
+    let cs ← charsOfHex t
+    if r = 8 ∨ r = 16 then pure (showRes (run floatAlg (.parseRadix r cs) [])) else none
+  | ["yaml", t] => do
+    -- `scalar_to_value` for a plain scalar that is not null/true/false
+    let cs ← charsOfHex t
+    match decText cs with
+    | some r => pure (showRes r)
+    | none =>
+      let oct := match cs with
+        | '0' :: 'o' :: ds => (match run floatAlg (.parseRadix 8 ds) [] with | .ok x => some x | .error _ => none)
+        | _ => none
+      let hex := match cs with
+        | '0' :: 'x' :: ds => (match run floatAlg (.parseRadix 16 ds) [] with | .ok x => some x | .error _ => none)
+        | _ => none
+      match oct, hex with
+      | some x, _ => pure (showRes (finiteCheck floatAlg x))
+      | none, some x => pure (showRes (finiteCheck floatAlg x))
+      | none, none => pure "nonnum"
+  | ["shortest", b, t] => do
+    let b ← if b.length = 16 then parseHexNat b else none
+    let cs ← charsOfHex t
+    pure (if isShortestRT b cs then "true" else "false")
+  | ["nearest", num, den, b] => do
+    let num ← num.toNat?
+    let den ← den.toNat?
+    let b ← if b.length = 16 then parseHexNat b else none
+    pure (if isNearestEven num den b then "true" else "false")
+  | ["round", num, den] => do
+    let num ← num.toNat?
+    let den ← den.toNat?
+    if den = 0 then none else pure (hex16 (roundNE num den))
+  | _ => none
 
 end Rsj.Num
